@@ -391,11 +391,19 @@ func (m *c12model) genLine() []byte {
 		}
 		nd.Assume(len(owners) > 0)
 		p := owners[nd.Concretize(nd.Choice(len(owners)))]
-		p.search = []uint32{n} // an ESEARCH response replaces the result
 		uid := ""
 		if p.kind == k12UIDSearch {
 			uid = "UID "
 		}
+		if nd.Bool() {
+			// nothing matched: only the correlator (and UID) is sent
+			p.search = nil
+			if uid != "" {
+				return []byte("* ESEARCH (TAG \"" + p.tag + "\") UID\r\n")
+			}
+			return []byte("* ESEARCH (TAG \"" + p.tag + "\")\r\n")
+		}
+		p.search = []uint32{n} // an ESEARCH response replaces the result
 		return append(append([]byte("* ESEARCH (TAG \""+p.tag+"\") "+uid+"ALL "), b...), "\r\n"...)
 	case 11: // CAPABILITY
 		m.caps = 1
@@ -465,6 +473,16 @@ func VerifC12Step() {
 				p.selNum = uint32(nd.Byte())
 				p.selFlags, p.selPerm = 2, 3
 				cmd.data.NumMessages, cmd.data.Flags, cmd.data.PermanentFlags = p.selNum, c12flagVal[2], c12flagVal[3]
+			}
+		case *SearchCommand:
+			if nd.Bool() {
+				// a result received earlier
+				p.search = []uint32{7}
+				if p.kind == k12UIDSearch {
+					cmd.data.All = imap.UIDSetNum(7)
+				} else {
+					cmd.data.All = imap.SeqSetNum(7)
+				}
 			}
 		case *ListCommand:
 			if cmd.returnStatus && nd.Bool() {
